@@ -9,8 +9,8 @@ TEXT = {
  'C18': ('proof', 'Verus discharges contracts on the real bodies of MergeOnce::{new,next}, SymmetricDiff::next, BTreeMap::{symmetric_diff,symmetric_fold} and MergeOnceWith::next, and a machine-checked lemma derives the property clause (exactly the differing keys, once, ascending, right tag; nothing for equal maps) from those contracts for all maps over u64. Unbounded: loop invariants and inductive lemmas, no unwinding bound. (The thorough tier additionally runs a bounded Kani twin of MergeOnce - u8 arrays of length <= 3 - as a counterexample finder; it is labelled bounded in evidence and is not part of the claim.)', '4/C18'),
  'C19': ('proof', 'Verus proves, on the real bodies, that both heaps and the State configure limit N exactly (new / set_max_height_allowed), that set_height accepts h iff h <= N (ok-variant and must-panic variant of the same body), that closing a cycle or raising a node above the limit in ensure_height_requirement always panics, and that a nested stabilise panics before touching anything. Which graph shapes reach these sites is not decided (see level_note).', '4/C19'),
  'C14': ('proof', 'Verus proves the per-node latch/counter/child-list contracts of ExpertNode on the real bodies (full-view postconditions tied to a spec-level latch automaton) and lemmas about that automaton (make_stale forces exactly one recompute; invalid-dependency accounting). Dependency rewiring in node.rs is only partly under contract.', '4/C14'),
- 'C10': ('proof', 'Verus proves the observer handle automaton on the real bodies: value_inner / try_get_value error table, disallow_future_use transitions, subscribe / unsubscribe (Mismatch first, dead observer unchanged, exact handler-map update), State::unsubscribe never panics, Observer::drop acts iff it is the last clone (must-call / must-not-call variants). Frame obligations pin where the lifecycle states are assigned.', '4/C10'),
- 'C09': ('proof', 'Verus proves the per-handler transition table (OnUpdateHandler::run), that every call of the user callback carries exactly the due update and the node\'s current value (call_requires obligations), and the end-of-stabilise classification Node::node_update (Changed iff the value changed in the stabilisation being closed). Delivery loops are pinned by frame obligations.', '4/C09'),
+ 'C10': ('proof', 'Verus proves the observer handle automaton on the real bodies: value_inner / try_get_value error table, disallow_future_use transitions, subscribe / unsubscribe (Mismatch first, dead observer unchanged, exact handler-map update), State::unsubscribe never panics, Observer::drop acts iff it is the last clone (must-call / must-not-call variants); stabilise_start and the per-observer bodies of add_new_observers / unlink_disallowed_observers / run_all (which calls are made, when, on whom, in which order). Frame obligations pin where the lifecycle states are assigned.', '4/C10'),
+ 'C09': ('proof', 'Verus proves the per-handler transition table (OnUpdateHandler::run), that every call of the user callback carries exactly the due update and the node\'s current value (call_requires obligations), and the end-of-stabilise classification Node::node_update (Changed iff the value changed in the stabilisation being closed). The per-item bodies of the queueing and delivery loops are under contract (must-call / never-call variants); that the loops visit every item is not.', '4/C09'),
  'C08': ('proof', 'Verus proves the five write paths of Var on the real bodies for both engine phases (immediate outside stabilise, parked and composed in program order during stabilise), stabilise-end application, and the staleness bookkeeping of did_set_var_while_not_stabilising.', '4/C08'),
  'C11': ('other', 'Two clauses only. Handler counts: Verus proves that subscribe / unsubscribe / linking / unlinking move the per-node handler counter by exactly the handlers registered (composition lemma). Edge bookkeeping: Verus proves on the real bodies that Node::add_parent records a new edge symmetrically on both ends, Node::remove_parent removes exactly that edge and re-slots the parent moved into the freed position symmetrically, and expert_swap_children_except_in_kind keeps both swapped edges symmetric - each with a full frame (nothing else moves). Whether these are called for the right nodes, heights, heap membership and stats().necessary are not under contract.', '4/C11'),
  'C07': ('other', 'Mechanism: try_get_value gating (no reads while Stabilising, NeverStabilised until linked) proved by Verus; Var writes outside stabilise proved to leave node values untouched; frame obligations pin the writers of node values, of the engine status and of the observer states.', '4/C07'),
@@ -35,7 +35,7 @@ for pid, cfg in sorted(P.PROPS.items()):
         engine='vx',
         level_claimed=dict(category=lvl, text=text, design_ref='DESIGN.md section ' + ref),
         level_note='Trusted: the specs in contracts/*/unit.rs marked external_body / assume_specification / uninterp / axiom (listed per run in evidence coverage.trusted_base); extraction rules R2-R8 (DESIGN.md 2.2: logging erased, trait impl -> inherent impl, type parameters := u64, Cell/RefCell of self erased so RefCell borrow panics are not covered); Verus + Z3. Not covered: ' + '; '.join(cfg['uncovered']),
-        technique='contract-based deductive verification (Verus) of mechanically extracted real function bodies' + ('; syntactic frame obligations' if lvl == 'other' or pid in ('C19', 'C10', 'C09') else '') + ('; on a violated MergeOnce obligation a bounded Kani harness over the same real text searches for a concrete input, replayed on the real crate' if pid == 'C18' else ''),
+        technique='contract-based deductive verification (Verus) of mechanically extracted real function bodies, incl. must-call / never-call / order variants of the same bodies' + ('; syntactic frame obligations (where a field may be written, a few call orders)' if lvl == 'other' or pid in ('C19', 'C10', 'C09', 'C08', 'C14') else '') + ('; on a violated MergeOnce obligation a bounded Kani harness over the same real text searches for a concrete input, replayed on the real crate' if pid == 'C18' else ''),
     ))
 for pid, reason in sorted(P.NOT_APPLICABLE.items()):
     na.append(dict(property_id=pid, reason=reason))
